@@ -177,6 +177,62 @@ def ob_index_target(ctx):
     return False, "check_assign_index never rejects a non-variable base"
 
 
+def ob_index_target_all_callers(ctx):
+    """flatten_index_target assumes an index chain that starts at a variable.  For an index *assignment* the resolver sees to
+    that (ob_index_target).  The other callers walk the receiver of a mutating method call, which can be any expression -
+    `f()[0].push(2)` - so each of them has to establish the shape itself before the call: a test of the chain's root for
+    Expr::Var (inline, or through a bool helper over the expression that walks Index nodes) whose positive outcome
+    edge-dominates the call."""
+    ok, why = ob_index_target(ctx)
+    if not ok:
+        return ok, why
+    flat = "runtime::Runtime::flatten_index_target"
+    uncovered = []
+    callers = 0
+    for fid, fn in sorted(ctx.lib.fns.items()):
+        for c in fn.calls():
+            if c.callee != flat:
+                continue
+            callers += 1
+            if parent_fn(fid).endswith("::assign_index"):
+                continue        # reached from Stmt::AssignIndex only: the resolver's obligation
+            covered = False
+            for S, al in fn.constraints(c.block):
+                si = fn.switch_info(S)
+                if si["kind"] == "call" and 0 not in al:
+                    g = ctx.lib.fns.get(si["callee"] or "")
+                    if g is not None and g.file == "src/runtime.rs" and g.locals[0]["ty"] == "bool" and any("parser::Expr" in l["ty"] for l in g.locals[1:g.argc + 1]):
+                        names = set()
+                        for S2 in sorted(g.live):
+                            if g.blocks[S2]["t"]["k"] == "switch":
+                                si2 = g.switch_info(S2)
+                                if si2["kind"] == "discr" and si2["ty"].endswith("parser::Expr"):
+                                    names |= set(si2["vars"].values()) & {"Index", "Var"}
+                                    names |= {si2["vars"].get(l) for l, _t in g.succ[S2] if l != "else"} & {"Index", "Var"}
+                        if {"Index", "Var"} <= names or "Var" in names:
+                            covered = True
+                if si["kind"] in ("place", "multi") and 0 not in al:
+                    # a bool that is `true` exactly under an Expr::Var outcome (`matches!(root, Expr::Var(..))`, possibly the
+                    # spliced body of a helper): follow the copy to the local assigned in the two arms
+                    l = si["place"]["l"] if si["kind"] == "place" else si["local"]
+                    for (bi, kk, st2) in fn.whole_defs(l):
+                        if kk != "t" and st2["rv"]["k"] == "use" and isinstance(st2["rv"]["a"], dict) and st2["rv"]["a"].get("int") == 1:
+                            for S3, lab in fn.deciding(bi):
+                                si3 = fn.switch_info(S3)
+                                if si3["kind"] == "discr" and si3["ty"].endswith("parser::Expr") and si3["vars"].get(lab) == "Var":
+                                    covered = True
+                if si["kind"] in ("multi", "discr") and "parser::Expr" in str(si.get("ty", "")) and si["kind"] == "discr":
+                    names = {si["vars"].get(l) for l in al}
+                    subj = sh(ne(fn.place_expr(si["of"], 4)))
+                    if names == {"Var"} and subj not in ("object", "target"):
+                        covered = True      # the root of the chain (not the receiver itself) matched as Var
+            if not covered:
+                uncovered.append(parent_fn(fid).split("::")[-1])
+    if uncovered:
+        return False, "%s hand(s) an index chain to flatten_index_target without having established that it starts at a variable: a mutating method on a chain that starts at a call or a literal (`f()[0].push(2)`) reaches the unreachable! arm" % ", ".join(sorted(set(uncovered)))
+    return True, why + "; the %d other caller(s) test the root of the chain first" % (callers - 1)
+
+
 def ob_loop_context(ctx):
     """`comot`/`next` cannot cross a function boundary: the loop depth is reset for a function body."""
     f = ctx.need("resolver::Resolver::check_function_body")
@@ -247,7 +303,7 @@ AST_OBLIGATIONS = [
     # (predicate on (fn id, signature), obligation id, function)
     (lambda f, s: f.endswith("::eval_expr") and s == "Expr(expr)∈{Member}", "member-outside-call", ob_member_rejected),
     (lambda f, s: f.endswith("::eval_function_call") and "Expr(call)∈{Call}" in s and "Expr(_)∈" in s and "ExecFlow" not in s, "callee-shape", ob_callee_shape),
-    (lambda f, s: f.endswith("::flatten_index_target") and s.startswith("Expr(target)∈"), "index-assignment-base", ob_index_target),
+    (lambda f, s: f.endswith("::flatten_index_target") and s.startswith("Expr(target)∈"), "index-assignment-base", ob_index_target_all_callers),
     (lambda f, s: f.endswith("::eval_function_call") and s.startswith("Expr(call)∈{") and "Expr(call)∈{Call}" not in s, "call-node", ob_call_node),
 ]
 
@@ -754,6 +810,9 @@ EXPLANATION += (
 )
 EXPLANATION += (
     " R12: every integer division / remainder the compiler guards with a zero-divisor assertion (all of src/, library and CLI) has a divisor that cannot be zero - a non-zero constant, a value clamped from below (max / clamp / + c), or one a dominating comparison shows to be non-zero (including `x < d * k` on unsigned operands). R8's one named exception (end - start of local_range) is now earned: the rule checks that local_range returns start .. start + len. R8 also uses, inside a closure, what the enclosing body established about a captured, never reassigned variable before it built the closure. R11 additionally shares C13-R6's encode-buffer clause."
+)
+EXPLANATION += (
+    " R1's obligation for the panic arm of flatten_index_target now covers every caller: the resolver's rejection for index assignments, and for the callers that walk a method receiver a test of the chain's root for Expr::Var whose positive outcome edge-dominates the call (D36 found and repaired)."
 )
 ASSUMPTIONS = [
     "the resolver lets values of any run-time type reach any operand position (dynamic typing of parameters, index and member results) - re-derived by C09's tables",
